@@ -36,6 +36,24 @@ def main():
                        lambda v, deck, feats: v['nowners'] >= 2 and ('union' in feats or 'compl' in feats
                                                                       or 'cellcompl' in feats),
                        clauses='owner')
+    # cell regions in the presence of the other features (TRCL on complemented cells, zero importance, universes):
+    # a slice of the GenUniv decks, judged by the same owner clause
+    try:
+        from . import common_univ
+        udecks = common_univ.generate(chk, False, chk.seed + 101, nquick=1500 if thorough else 250)
+        urecs, uverd, und, umeta = common_univ.run(chk, udecks, 'owner', chk.seed + 1, lambda d, r: [[]], npts=90)
+        for tid, v in sorted(uverd.items()):
+            for kind, k in v['bad']:
+                if kind in OWNER_KINDS:
+                    err = urecs[tid]['err']
+                    chk.violation({'clause': kind, 'errtype': err['type'] if err else None, 'where': err['where'] if err else None,
+                                   'features': 'universe_deck+' + '+'.join(common_univ.features(und[tid]))},
+                                  {'text': urecs[tid]['text'], 'opts': [], 'error': err, 'deck': und[tid], 'clauses': 'owner',
+                                   'point2': und[tid]['pts'][k - 1] if k else None})
+        chk.cov['traces_validated_against_impl'] += len(uverd)
+        chk.extra['universe_decks'] = len(uverd)
+    except tlc.TLCFailure as exc:
+        chk.machinery(str(exc))
     sub = [nd[t] for t in sorted(nd)][::max(1, len(nd) // 250)]
     pipeline.check_decks(chk, sub, lambda d, r: [[]], chk.seed)
     chk.cov['traces_validated_against_impl'] += chk.extra.get('pipeline_traces', 0)
